@@ -11,6 +11,7 @@ from __future__ import annotations
 import io
 import itertools
 import os
+import re
 
 from .. import corpus, isolate
 
@@ -309,7 +310,91 @@ def explore_as_yaml(args):
     return n, bad
 
 
+# ---------------------------------------------------------------- listify
+def explore_listify(args):
+    """ast.listify turns a newline delimited string of user statements into lines: only "\n" separates lines; the break
+    hints (form feed, carriage return, tab) stay inside the line they were written in, for write_continue to see."""
+    maxlen = args
+    from shroud import ast
+
+    bad = []
+    n = 0
+    for k in range(1, maxlen + 1):
+        for tup in itertools.product("x\n\f\r\t ", repeat=k):
+            text = "".join(tup)
+            want = text.split("\n")
+            if text.endswith("\n"):
+                want.pop()
+            for where in ("flat", "nested"):
+                entry = {"c": text, "other": text} if where == "flat" else {"f": {"pre_call": text, "keep": text}}
+                try:
+                    got = ast.listify(entry, ["c", "pre_call"])
+                    lines = got["c"] if where == "flat" else got["f"]["pre_call"]
+                    untouched = got["other"] if where == "flat" else got["f"]["keep"]
+                except Exception as e:  # noqa
+                    lines, untouched = "%s: %s" % (type(e).__name__, e), text
+                n += 1
+                if (lines != want or untouched != text) and len(bad) < 10:
+                    bad.append((text, "listify(%r) gives %r, the lines between newlines are %r" % (text, lines, want)))
+    return n, bad
+
+
 # ---------------------------------------------------------------- generated files
+FORTRAN_STARTERS = re.compile(
+    r"^(use|implicit|type|end|integer|real|character|logical|complex|double|interface|abstract|subroutine|function|module|program|contains|call|if|else|elseif|"
+    r"do|select|case|endif|enddo|endfunction|endsubroutine|endmodule|endtype|endinterface|endselect|elsewhere|endwhere|allocate|deallocate|import|private|public|procedure|generic|final|return|nullify|enum|enumerator|class|associate|stop|"
+    r"pure|elemental|recursive|block|where|print|write|read|continue|exit|cycle|data|save|parameter|external|intrinsic|include|sequence|"
+    r"bind\s*\(\s*c\s*\)\s*::)\b", re.I)
+ASSIGNMENT = re.compile(r"^[A-Za-z_]\w*(\s*%\s*[A-Za-z_]\w*|\s*\([^=]*\))*\s*(=>|=)(?!=)")
+
+
+def strip_fortran_comment(ln):
+    q = None
+    for i, ch in enumerate(ln):
+        if q:
+            if ch == q:
+                q = None
+        elif ch in "'\"":
+            q = ch
+        elif ch == "!":
+            return ln[:i]
+    return ln
+
+
+def orphan_lines(text):
+    """Physical lines of free-form Fortran that begin in the middle of a statement although the line before them does not
+    end in the continuation marker: the logical line they belong to cannot be recovered."""
+    out = []
+    continued = False
+    user = 0
+    for no, raw in enumerate(text.split("\n"), 1):
+        # what stands between splicer markers is the user's text, whatever it is
+        if re.match(r"^\s*!\s*splicer begin\b", raw):
+            user += 1
+        elif re.match(r"^\s*!\s*splicer end\b", raw):
+            user = max(0, user - 1)
+            continued = False
+        if user:
+            continue
+        ln = strip_fortran_comment(raw).rstrip()
+        t = ln.strip()
+        if not t or t.startswith("#"):
+            continue
+        if continued:
+            continued = t.endswith("&")
+            continue
+        continued = t.endswith("&")
+        body = t.lstrip("&").strip()
+        m = re.match(r"^(\w+)\s*:(?!:)\s*(.*)$", body)  # construct label
+        if m:
+            body = m.group(2) or body
+        body = re.sub(r"^\d+\s+", "", body)  # statement label
+        if FORTRAN_STARTERS.match(body) or ASSIGNMENT.match(body):
+            continue
+        out.append((no, raw))
+    return out
+
+
 def fortran_line_limit(ctx, only=None):
     base = ctx.subdir("corpus")
     res = corpus.generate_all(ctx.repo, base, ctx.workers, only=only)
@@ -324,6 +409,10 @@ def fortran_line_limit(ctx, only=None):
             if not fn.endswith((".f", ".f90", ".F")):
                 continue
             nfiles += 1
+            with open(os.path.join(out, fn)) as fp:
+                for no, raw in orphan_lines(fp.read())[:2]:
+                    ctx.violation("fortran-orphan-line %s:%s" % (name, fn), "%s/%s line %d starts in the middle of a statement but the line before it carries no continuation marker: %r" % (
+                        name, fn, no, raw), {"config": cfg, "file": fn, "line": no})
             with open(os.path.join(out, fn)) as fp:
                 for no, ln in enumerate(fp, 1):
                     ln = ln.rstrip("\n")
@@ -497,6 +586,16 @@ def run(ctx):
     for r in res:
         for obj, ind, err in r[1]:
             ctx.violation("as_yaml %s" % sorted(type(v).__name__ for v in obj.values()), err, {"kind": "as_yaml", "obj": obj, "indent": ind})
+    # --- listify
+    r = isolate.call_in_child(explore_listify, (4 if quick else 6,), timeout=300)
+    if r.status != "ok":
+        ctx.violation("listify exploration", "listify exploration failed: %s %s" % (r.exc, r.msg), {"kind": "listify"})
+    else:
+        n, lbad = r.value
+        ctx.count(states=n, transitions=n, validated=n)
+        ctx.part("listify", executions=n)
+        for text, err in lbad:
+            ctx.violation("listify %r" % text, err, {"kind": "listify", "text": text})
     # --- generated Fortran files
     fortran_line_limit(ctx)
     line_length_options(ctx)
